@@ -71,3 +71,27 @@ func zzDiffHarness(maxN int) {
 	}
 	zz.Assert(li == nl && ri == nr, "the script consumes all of lhs and produces all of rhs")
 }
+
+// zzH_C16_locationsTrackRegistry: the location list used to compare the
+// driver's and a worker's Func registries reflects the registry AT THE TIME OF
+// THE CALL: after every further registration it is one entry longer, keeps its
+// earlier entries, and differs (non-empty diff) from the list taken before.
+func zzH_C16_locationsTrackRegistry() {
+	prev := FuncLocations()
+	k := zz.AnyIntIn("lateRegistrations", 0, 2)
+	for i := 0; i < k; i++ {
+		Func(func() Slice { return Const(1, []int64{0}) })
+		cur := FuncLocations()
+		zz.Assert(len(cur) == len(prev)+1, "every registered Func has a location entry")
+		for j := range prev {
+			if j < len(cur) {
+				zz.Assert(cur[j] == prev[j], "earlier entries are unchanged")
+			}
+		}
+		zz.Assert(len(FuncLocationsDiff(prev, cur)) > 0, "registries of different sizes have a non-empty diff")
+		prev = cur
+		zz.Reach("late registration seen")
+	}
+	again := FuncLocations()
+	zz.Assert(len(again) == len(prev) && len(FuncLocationsDiff(prev, again)) == 0, "without registrations the list is stable and the diff is empty")
+}
